@@ -74,6 +74,13 @@ class VExecutor(Executor):
     def _do_wait(self):
         yield WAIT
 
+    def _free_physical_qubit(self, subroutine_id, address):
+        if getattr(self, "log_qfree", False):
+            um = self._get_unit_module(subroutine_id)
+            if 0 <= address < len(um) and um[address] is not None:
+                self.gate_log.append(("qfree", (address,), (), (um[address],)))
+        yield from super()._free_physical_qubit(subroutine_id, address)
+
     def _wait_to_handle_epr_responses(self):
         # The base class calls itself recursively until the response can be handled
         # (RecursionError); every simulator overrides this.  Retrying is a separate,
